@@ -77,7 +77,7 @@ def runOne (st : St) (ev : Events) (posts : List (String × Nat)) : St × List (
   let tbl := fireTable st.sp ev
   let cbs := listenerOutputs st tbl
   let dfr := deferred st.sp tbl
-  let sp := applyUpdates st.sp tbl
+  let sp := applyUpdates st.sp tbl      -- together with the `txn + 1` below: `stepTxn`
   let pcb := posts.filterMap fun (p, c) => (sp.val c).map fun v => (p, v)
   let sp := { sp with txn := sp.txn + 1 }
   ({ st with sp := sp }, cbs ++ pcb, dfr)
@@ -217,11 +217,7 @@ def stmt (st : St) (ws : List String) : St × String :=
       | some v, some (.ent i k) =>
         if k == .ss || k == .cs then
           st.inTxn fun st =>
-            let coal := match st.sp.getDef i with | .sink (some op) => some op | _ => none
-            let sends := match coal, st.sends.get i with
-              | some op, some old => (st.sends.filter (·.1 != i)) ++ [(i, f2 op old v)]
-              | _, _ => (st.sends.filter (·.1 != i)) ++ [(i, v)]
-            { st with sends := sends }
+            { st with sends := addSend (st.sp.coalescer i) st.sends i v }
         else (st, "skip")
       | _, _ => (st, "skip")
     else if cmd == "mklazy" then
